@@ -1,3 +1,4 @@
+(* roots: C18 C08 C09 *)
 (* C09: writing a system as btor2 and reading it back preserves it.  Case:
    (case ID (profile P) (origin ..) (vseed N) (sys0 (nodes ..) (sys ..)) (ser1 ok|(err m)|(panic loc)) (sys1 R) (names1 N)
          (ser2 ..) (names2 N) (fix same|differs|na) (text1 ".."))
